@@ -602,9 +602,10 @@ def _run(prop, tier, a, mod, out, workdir, t_start):
         "violations": len(lines),
     }
     evdir = os.environ.get("VERIF_EVIDENCE_DIR", os.path.join(ROOT, "evidence"))
-    os.makedirs(evdir, exist_ok=True)
-    with open(os.path.join(evdir, prop + ".json"), "w") as f:
-        json.dump(ev, f, indent=1, sort_keys=True, default=str)
+    if not a.replay:            # a replay of one recorded input is not a run of the check: the evidence file is left alone
+        os.makedirs(evdir, exist_ok=True)
+        with open(os.path.join(evdir, prop + ".json"), "w") as f:
+            json.dump(ev, f, indent=1, sort_keys=True, default=str)
     for ln in lines:
         log(ln)
     log("== %s: %s (%.1fs)" % (prop, "VIOLATION" if lines else "ok", time.time() - t_start))
